@@ -44,6 +44,12 @@ class GStub(Stub):
         # instance-level __new__ so that NEWOBJ's cls.__new__(cls, *args) is observable
         self.__dict__["__new__"] = self._new
 
+    def __getattr__(self, attr):
+        # attribute walk from an imported name: `from m import Outer; Outer.Inner` is the global m:'Outer.Inner'
+        if attr.startswith("__"):
+            raise AttributeError(attr)
+        return self._w.G(self.module, f"{self.name}.{attr}")
+
     def canon_callee(self):
         if self.module in BUILTIN_FAMILY:
             return ("B", self.name)
@@ -205,7 +211,8 @@ def events(world):
     for ev in world.log:
         k = ev[0]
         if k == "import":
-            imports.append(ev)
+            # a dotted qualified name is imported through its outermost component
+            imports.append(("import", ev[1], ev[2].split(".")[0]))
         elif k in ("call", "new", "persid"):
             inst = ev[1]
             calls.append(safe_canon_creation(inst))
